@@ -508,7 +508,9 @@ def cases(rng, tier):
             (lambda m, z, axs=axs: (lambda r: r[0] * 2.0 + r[-1])(m.gradient(z, axis=axs) if axs is None or len(axs) > 1 else [m.gradient(z, axis=axs)[0]] if isinstance(m.gradient(z, axis=axs), (list, tuple)) else [m.gradient(z, axis=axs)])),
             [iarr(rng, (5, 4))], modes=("rev",))
     lin("gradient", "3-D axis=(0, 2)", (lambda m, z: (lambda r: r[0] - 3.0 * r[1])(m.gradient(z, axis=(0, 2)))), [iarr(rng, (3, 2, 4))], modes=("rev",))
-    lin("gradient", "2-D spacing 2.0, 0.5", (lambda m, z: (lambda r: r[0] + r[1])(m.gradient(z, 2.0, 0.5))), [iarr(rng, (4, 4))], modes=("rev",))
+    lin("gradient", "2-D spacing 2.0, 0.5", (lambda m, z: (lambda r: r[0] + r[1])(m.gradient(z, 2.0, 0.5))), [iarr(rng, (4, 4))])
+    lin("gradient", "3-D spacings 0.5, 2.0, 4.0", (lambda m, z: (lambda r: r[0] + 2.0 * r[1] - r[2])(m.gradient(z, 0.5, 2.0, 4.0))), [iarr(rng, (3, 3, 3))])
+    lin("gradient", "2-D one spacing for both axes", (lambda m, z: (lambda r: r[0] - r[1])(m.gradient(z, 0.5))), [iarr(rng, (4, 3))])
     lin("astype", "float32", (lambda m, z: z.astype(onp.float32)), [iarr(rng, A23)], modes=("rev",))
     lin("array", "nested-list", (lambda m, a, b: m.array([[a, b], [b, a]])), [2.0, 3.0], (0, 1))
     lin("array", "list-of-arrays", (lambda m, a, b: m.array([a, b])), [iarr(rng, (3,)), iarr(rng, (3,))], (0, 1))
@@ -1009,6 +1011,51 @@ def main():
         except Exception as ex:
             problems = [("harness", -1, "oracle could not evaluate the case: %r" % (ex,))]
         record(c, problems, "[third pass: argument and result pass through identity-valued primitives, kind %d]" % kind_)
+    # ---- fourth pass: cotangents whose entries differ by many orders of magnitude, for the exactly linear rows.  A rule
+    #      that is algebraically right but subtracts large numbers (sum(g) - cumsum(g), one-pass formulas) returns small
+    #      entries that are garbage; each entry of J^T g is compared with the exactly rounded sum of ITS OWN terms ----
+    import math
+    from fractions import Fraction
+    wide = [c for c in clean if c.exact and c.step == 1.0 and not c.pairing_only and "rev" in c.modes and rng.random() < (0.5 if cfg.get("tier") == "thorough" else 0.2)]
+    for c in wide:
+        for k in c.diff:
+            x = c.args[k]
+            xa = onp.asarray(x)
+            if onp.iscomplexobj(xa) or xa.size == 0 or xa.size > 24:
+                continue
+
+            def fk_np(z, k=k, c=c):
+                a_ = list(c.args)
+                a_[k] = z
+                return c.f(onp, *a_)
+
+            def fk(z, k=k, c=c):
+                a_ = list(c.args)
+                a_[k] = z
+                return c.f(anp, *a_)
+            try:
+                y0 = onp.asarray(fk_np(x))
+                if onp.iscomplexobj(y0) or y0.size == 0 or y0.size > 40:
+                    continue
+                cols = [onp.asarray(fk_np(as_arg(x, d))) - y0 for d in directions(xa)]          # J e_i, exact
+                gw = onp.array([rng.choice([-1.0, 1.0]) * 10.0 ** rng.choice([-17, -9, -3, 0, 0, 4, 11, 17]) for _ in range(y0.size)]).reshape(y0.shape)
+                vj = onp.asarray(make_vjp(fk)(x)[0](gw if y0.shape else float(gw)))
+            except Exception:
+                continue
+            out["dist"]["fourth-pass (wide-range cotangent)"] = out["dist"].get("fourth-pass (wide-range cotangent)", 0) + 1
+            if vj.shape != xa.shape:
+                continue
+            for i, col in enumerate(cols):
+                terms = [Fraction(float(a_)) * Fraction(float(b_)) for a_, b_ in zip(col.ravel(), gw.ravel()) if a_ != 0]
+                true = float(sum(terms)) if terms else 0.0
+                mass = float(sum(abs(t) for t in terms)) if terms else 0.0
+                got = float(vj.ravel()[i])
+                if not abs(got - true) <= 1e-9 * mass + 1e-300:
+                    out["bad"].append({"property": "C01", "primitive": c.prim, "configuration": c.tag + " [cotangent entries spanning 34 orders of magnitude]",
+                                       "argnum": k, "what": "entry %d of the VJP is %r, the exactly rounded J^T g entry is %r (its own terms have mass %r)" % (i, got, true, mass),
+                                       "args": [str(onp.asarray(a).tolist()) for a in c.args], "g": gw.ravel().tolist(),
+                                       "site": {"primitive": c.prim, "property": "C01", "class": []}} ) if "C01" in props else None
+                    break
     # ---- concurrent pass (C20): the same verdicts when several cases run at once in different threads
     if cfg.get("threads"):
         import threading
